@@ -584,6 +584,8 @@ def shared_default_mutations(cls, fn, names=None):
     def is_shared(e, aliases):
         if isinstance(e, ast.Name):
             return e.id in aliases
+        if isinstance(e, ast.Attribute) and U(e) in aliases:
+            return True
         if isinstance(e, ast.Attribute) and e.attr in shared:
             b = U(e.value)
             return b in ("self.__class__", "type(self)", "cls", cls.name)
@@ -596,6 +598,11 @@ def shared_default_mutations(cls, fn, names=None):
                 others = [d for d in assigns_to(fn, a.targets[0].id) if d is not a and not isinstance(d, ast.AugAssign)]
                 if not others:
                     aliases.add(a.targets[0].id)
+            # self.X = <the shared object>: the instance attribute is the class-level object itself
+            if isinstance(a, ast.Assign) and len(a.targets) == 1 and isinstance(a.targets[0], ast.Attribute) and U(a.targets[0].value) == "self" and is_shared(a.value, aliases):
+                same = [d for d in walk_body(fn.body) if isinstance(d, ast.Assign) and d is not a and any(U(t) == U(a.targets[0]) for t in d.targets)]
+                if not same:
+                    aliases.add(U(a.targets[0]))
     bad = []
     for x in walk_body(fn.body):
         if isinstance(x, ast.AugAssign) and is_shared(x.target, aliases):
